@@ -5,7 +5,7 @@
    as_totals_body, gen_add_mix, run_convert are re-proved about what the code says now. *)
 From Coq Require Import QArith List String ZArith Permutation.
 Require Import IPV.C15.Ir IPV.C15.Units IPV.C15.Convert IPV.C15.ExecLemmas IPV.C15.ConvertBody IPV.C15.UnitsProofs
-               IPV.C15.ConvertSamples IPV.C15.Store IPV.C15.Mix IPV.C15.MixGen IPV.C15.MixGenSamples IPV.C15.Homog IPV.C15.Dens IPV.C15.Checker IPV.Gen.Gen_C15_engine.
+               IPV.C15.ConvertSamples IPV.C15.Store IPV.C15.Mix IPV.C15.MixGen IPV.C15.MixGenSamples IPV.C15.Homog IPV.C15.Dens IPV.C15.Block IPV.C15.ReadTaint IPV.C15.Checker IPV.Gen.Gen_C15_engine.
 Import ListNotations.
 Open Scope string_scope.
 Open Scope Q_scope.
@@ -182,6 +182,25 @@ Theorem solution_volume_extensive : forall (env : string -> Q) c, ~ c == 0 ->
   evalq (scale_env vol_ext c env) vol_expr == c * evalq env vol_expr.
 Proof. exact Dens.solution_volume_extensive. Qed.
 Print Assumptions solution_volume_extensive.
+
+(* ---------------- reading a SOLUTION block: position of `units` among the constituent lines ---------------- *)
+
+(* model: a constituent line keeps only its OWN units; the block units are supplied after the whole block has been
+   read.  Then the resolved units and amount of every constituent are independent of the order of the items. *)
+Theorem block_read_order_independent : forall items items',
+  Permutation items items' ->
+  (List.length (units_of items) <= 1)%nat ->
+  NoDup (map fst (lines_of items)) ->
+  forall d, resolved (read_block items) d = resolved (read_block items') d.
+Proof. exact Block.block_read_order_independent. Qed.
+Print Assumptions block_read_order_independent.
+
+(* tie to the code: in the regenerated cxxISolutionComp::read no assignment to the constituent's units depends on the
+   units of the enclosing solution (flow-insensitive taint over the generated statements) *)
+Theorem isc_read_units_own_only :
+  assigns_units gen_isc_read = true /\ units_taint_free gen_isc_read = true.
+Proof. exact ReadTaint.isc_read_units_own_only. Qed.
+Print Assumptions isc_read_units_own_only.
 
 (* ---------------- the verified checker used on the implementation's output ---------------- *)
 
